@@ -179,6 +179,7 @@ def scripts_for(tier, seed, shard, nshards):
     rng = random.Random(f"{seed}:C19:scripts")
     pairs = [(f, s) for f in FORMS for s in SCOPES]
     actions = [("reg", p) for p in pairs] + [("unreg", None), ("unreg_all", None)]
+    rereg_actions = [("rereg", p) for p in pairs]
     out = []
     # every sequence of <= 2 steps
     reps = 1 if tier == "quick" else 3
@@ -190,6 +191,13 @@ def scripts_for(tier, seed, shard, nshards):
     for _ in range(n_random):
         length = rng.choice([3, 3, 4])
         out.append(tuple(rng.choice(actions) for _ in range(length)))
+    # register, unregister, register the same function object again: every (form, scope) x (form, scope) pair
+    for first in pairs:
+        for second in pairs:
+            if first[1] == second[1] or rng.random() < 0.25:
+                out.append((("reg", first), ("unreg", None), ("rereg", second)))
+    for _ in range(n_random // 5):
+        out.append((("reg", rng.choice(pairs)), rng.choice(actions), ("unreg", None), rng.choice(rereg_actions), rng.choice(actions + rereg_actions)))
     scripts = []
     for idx, combo in enumerate(out):
         if idx % nshards != shard:
@@ -197,8 +205,8 @@ def scripts_for(tier, seed, shard, nshards):
         r = random.Random(f"{seed}:C19:{idx}")
         steps = []
         for kind, pair in combo:
-            if kind == "reg":
-                steps.append(gen_step(r, *pair))
+            if kind in ("reg", "rereg"):
+                steps.append(dict(gen_step(r, *pair), do=kind))
             elif kind == "unreg":
                 steps.append({"do": "unreg", "k": r.randrange(0, 3)})
             else:
@@ -287,25 +295,25 @@ class Runner:
         if name.startswith("map_"):
 
             def fn(ctx, value):
-                log.add((hook_id, ctx.operation.label))
+                log.add((fn.hook_id, ctx.operation.label))
                 return value
 
         elif name.startswith("filter_"):
 
             def fn(ctx, value):
-                log.add((hook_id, ctx.operation.label))
+                log.add((fn.hook_id, ctx.operation.label))
                 return True
 
         elif name.startswith("flatmap_"):
 
             def fn(ctx, value):
-                log.add((hook_id, ctx.operation.label))
+                log.add((fn.hook_id, ctx.operation.label))
                 return st.just(value)
 
         else:
 
             def fn(ctx, strategy):
-                log.add((hook_id, ctx.operation.label))
+                log.add((fn.hook_id, ctx.operation.label))
                 return strategy
 
         fn.__name__ = name
@@ -347,12 +355,21 @@ class Runner:
             "test": (test_dispatcher.register, "test"),
         }
         model = []  # [{"id", "scope", "name", "inc", "exc", "fn"}]
+        retired = []  # function objects that were registered once and then unregistered
         errors = []
         next_id = 0
         for step in script["steps"]:
-            if step["do"] == "reg":
+            if step["do"] in ("reg", "rereg"):
                 reg, scope = registers[step["scope"]]
-                fn = self.make_hook(next_id, step["hook"])
+                if step["do"] == "rereg" and retired:
+                    # the same function object is registered again (with other filters or none)
+                    old = retired.pop(0)
+                    fn = old["fn"]
+                    fn.hook_id = next_id
+                    step = dict(step, hook=old["name"])
+                    fn.__name__ = old["name"]
+                else:
+                    fn = self.make_hook(next_id, step["hook"])
                 form = step["form"]
                 inc, exc = [], []
                 a1, k1 = make_filter_kwargs(step["f1"])
@@ -399,9 +416,11 @@ class Runner:
                     entry = model[step["k"] % len(model)]
                     dispatchers[entry["scope"]].unregister(entry["fn"])
                     model.remove(entry)
+                    retired.append(entry)
             else:
                 scope = step["scope"]
                 dispatchers[scope].unregister_all()
+                retired.extend(m for m in model if m["scope"] == scope)
                 model = [m for m in model if m["scope"] != scope]
         try:
             self.draw_all(schema, hooks=test_dispatcher)
